@@ -378,6 +378,8 @@ def make_driver_class():
             self.index = None
             self.errored = False
             self.sent_after_close = 0
+            self._last_due = 0.0
+            self._pending = []
 
         # ---- CRTPDriver API ----
         def connect(self, uri, radio_link_statistics_callback, link_error_callback):
@@ -440,32 +442,45 @@ def make_driver_class():
             if k:
                 env.faults.append((mode, lbl))
             if mode == 'once':
-                self.in_queue.put(CRTPPacket(h, bytearray(payload)))
+                self._enqueue(h, payload, 0.0)
             elif mode == 'dup':
-                self.in_queue.put(CRTPPacket(h, bytearray(payload)))
-                self.in_queue.put(CRTPPacket(h, bytearray(payload)))
+                self._enqueue(h, payload, 0.0)
+                self._enqueue(h, payload, 0.0)
             elif mode == 'drop':
                 pass
             elif mode.startswith('delay'):
                 d = float(mode[5:]) if len(mode) > 5 else env.delay
-                self.deliver_later(h, payload, d)
+                self._enqueue(h, payload, d)
             else:
                 raise HarnessError('unknown reply mode %r' % (mode,))
 
-        def deliver_later(self, h, payload, d):
+        def _enqueue(self, h, payload, d):
+            """The downlink is FIFO (as the radio link is): a delayed packet also holds back later ones."""
             s = vsched.S
+            now = s.now if s is not None else 0.0
+            due = max(now + d, self._last_due)
+            self._last_due = due
+            if due <= now and not self._pending:
+                self.in_queue.put(CRTPPacket(h, bytearray(payload)))
+                return
+            self._pending.append((due, h, bytes(payload)))
             link = self
 
             def body():
-                s.sleep(d, 'reply.delay')
-                if not link.closed:
-                    link.in_queue.put(CRTPPacket(h, bytearray(payload)))
+                s.sleep(max(0.0, due - s.now), 'reply.delay')
+                while link._pending and link._pending[0][0] <= s.now + 1e-12:
+                    _, h2, p2 = link._pending.pop(0)
+                    if not link.closed:
+                        link.in_queue.put(CRTPPacket(h2, bytearray(p2)))
             s.spawn(None, body, name='delayed-reply')
+
+        def deliver_later(self, h, payload, d):
+            self._enqueue(h, payload, d)
 
         def inject(self, h, payload):
             """Unsolicited downlink packet."""
             if not self.closed:
-                self.in_queue.put(CRTPPacket(h, bytearray(payload)))
+                self._enqueue(h, payload, 0.0)
 
         def receive_packet(self, wait=0):
             import queue
